@@ -59,7 +59,9 @@ def generate(ctx):
                # clear() in the middle of the run: everything before it equals the resting state from then on
                "clear_at": rng.choice([None, None, 3, 5, 8]), "via_partial": rng.random() < 0.4,
                # built with another maximum delay: half a step shorter (same step count when dk is whole), one step longer, zero
-               "built_delay": rng.choice([None, None, None, max(dk - 0.5, 0.0) * dt, (dk + 1) * dt, 0.0])}
+               "built_delay": rng.choice([None, None, None, max(dk - 0.5, 0.0) * dt, (dk + 1) * dt, 0.0]),
+               # built with another charge, re-tuned through the attribute before the first input
+               "built_charge": rng.choice([None, None, 1.0, -3.0, 0.25])}
 
 
 def _build(desc, inplace):
@@ -72,6 +74,10 @@ def _build(desc, inplace):
     if desc.get("built_delay") is not None:
         desc = {**desc, "delay": desc["built_delay"]}
         common["delay"] = desc["built_delay"]
+    if desc.get("built_charge"):
+        final_q = desc["Q"]
+        desc = {**desc, "Q": desc["built_charge"]}
+        common["spike_charge"] = desc["built_charge"]
     if desc.get("built_dt"):
         desc = {**desc, "dt": desc["built_dt"]}
     if desc.get("via_partial"):
@@ -95,6 +101,8 @@ def _build(desc, inplace):
     else:
         s = DoubleExponentialCurrent(shape, desc["dt"], tc_decay=desc["tc"] + desc["tr"], tc_rise=desc["tr"],
                                      spike_interp_mode=desc["interp"], **common)
+    if desc.get("built_charge"):
+        s.spike_charge = final_q     # the charge is a plain attribute every step reads: re-tuned before any input arrives
     if s.dt != final_dt:
         s.dt = final_dt
     if desc.get("built_delay") is not None and desc["built_delay"] != final_delay:
@@ -244,6 +252,8 @@ def run_case(ctx, desc):
         return ctx.violation(ctx.exc_signature(e, f"construct.{kind}"), f"{type(e).__name__}: {str(e)[:140]}", desc)
     if desc.get("built_delay") is not None and desc["built_delay"] != desc["delay"]:
         ctx.count("synapses_redelayed_through_the_setter")
+    if desc.get("built_charge") and desc["built_charge"] != desc["Q"]:
+        ctx.count("synapses_with_the_charge_retuned_after_construction")
     orc = _Oracle(desc, full)
     T = desc["T"]
     tag = f"{kind}/dt{desc['dt']}/d{desc['delay_steps']}/tol{desc['tol']}/{desc['interp']}"
